@@ -15,7 +15,7 @@ LEVEL = 'exploration'
 RULE = ('Model-based histories: a generated list of 1-12 operations is applied to ONE long-lived WMM object per frame (NED or '
         'ENU), exactly like a rule-based state machine (the list shrinks as one value and is the replay file). Operations: '
         'query through the method with a float date on the tenth-of-a-year grid, an int year, or a datetime.date; query with the '
-        'default date; query with date=None (re-uses the object\'s current date); reset_coefficients(date); re-construct the object '
+        'default date; query with date=None (re-uses the object\'s current date); reset_coefficients(date); reset_date(date); re-construct the object '
         'through the constructor (date, lat, lon, h, frame). After every query the elements are compared with (a) a fresh object '
         'asked the same single question (1e-9 nT) and (b) for float/int dates the independent spherical-harmonic oracle of C14; '
         'invariants on every answer: all eight elements finite, H=hypot(X,Y), F=hypot(H,Z), I=atan2(Z,H), D=atan2(Y,X), the ENU '
@@ -23,7 +23,7 @@ RULE = ('Model-based histories: a generated list of 1-12 operations is applied t
         'Non-trivial: >= 3 queries of which >= 1 changes the coefficient file; distinct = case hash.')
 ASSUMPTIONS = ['the default-date query depends on the import-time date, identically for the long-lived and the fresh object',
                'datetime.date inputs are compared with a fresh object only (their decimal-year conversion is the package\'s definition)']
-REQUIRED_LABELS = ['history:op=method_none', 'history:op=construct', 'history:epoch_change', 'history:lat0_or_lon0', 'history:frame=ENU']
+REQUIRED_LABELS = ['history:reset_date_then_date_none', 'history:op=method_none', 'history:op=construct', 'history:epoch_change', 'history:lat0_or_lon0', 'history:frame=ENU']
 
 
 def _place():
@@ -45,6 +45,7 @@ def _op():
         st.tuples(st.just('method_default'), _place()),
         st.tuples(st.just('method_none'), _place()),
         st.tuples(st.just('reset'), _date()),
+        st.tuples(st.just('reset_date'), _date()),      # public: "set date to use with the model ... the corresponding COF file is also set"
         st.tuples(st.just('construct'), _place(), _date()))
 
 
@@ -75,6 +76,7 @@ def evaluate(case, ctx):
     if not ok:
         return
     nq, files = 0, set()
+    pending_reset_date = False
     for step, op in enumerate(case['ops']):
         kind = op[0]
         ctx.label(f'op={kind}')
@@ -82,6 +84,12 @@ def evaluate(case, ctx):
             okr, _ = ctx.call('reset_coefficients', lambda: w.reset_coefficients(_mk_date(op[1])))
             if not okr:
                 return
+            continue
+        if kind == 'reset_date':
+            okr, _ = ctx.call('reset_date', lambda: w.reset_date(_mk_date(op[1])))
+            if not okr:
+                return
+            pending_reset_date = True
             continue
         lat, lon, h = (float(x) for x in op[1])
         if lat == 0.0 or lon == 0.0:
@@ -99,6 +107,9 @@ def evaluate(case, ctx):
         elif kind == 'method_none':
             cur = w.date             # the date the object currently holds (a datetime.date)
             cur_dec = float(w.date_dec)
+            if pending_reset_date:
+                ctx.label('reset_date_then_date_none')
+                route = 'method_none_after_reset_date'
             okq, _ = ctx.call('method_none', lambda: w.magnetic_field(lat, lon, h, date=None))
             fresh = lambda: _fresh_method(WMM, frame, lat, lon, h, ('date', cur_dec))
             # off-grid dates (from datetime.date inputs) are judged against the fresh object only
@@ -110,6 +121,7 @@ def evaluate(case, ctx):
                 w = w2
             fresh = lambda: _fresh_method(WMM, frame, lat, lon, h, ('date', d))
             oracle_date = float(d) if not isinstance(d, datetime.date) else None
+        pending_reset_date = False
         if not okq:
             return
         nq += 1
